@@ -12,7 +12,7 @@ from ..core import Violation
 PROP_ID = "C04"
 LEVEL = "exploration"
 RULE = (
-    "cases: (a) every ordered tree shape up to 7 (quick) / 9 (thorough) nodes, every node checked, commonancestors on all "
+    "cases: (a) every ordered tree shape up to 7 (quick) / 10 (thorough) nodes, every node checked, commonancestors on all "
     "pairs and (<= 6 nodes) all triples plus 0/1/repeated arguments; (b) Hypothesis trees up to 60 nodes; (c) mutation "
     "histories (parent/children assignments and deletions on up to 8 nodes) with all attributes re-checked after every step. "
     "Non-trivial = the case contains a node with depth >= 1 that has a sibling or a descendant (shape cases), or a history "
@@ -199,8 +199,8 @@ def random_cases(draw):
 
 def plan(tier, seed):
     nshards = 16
-    max_nodes = 7 if tier == "quick" else 9
-    examples = 150 if tier == "quick" else 600
+    max_nodes = 7 if tier == "quick" else 10
+    examples = 150 if tier == "quick" else 2500
     tasks = [{"engine": "enum", "max_nodes": max_nodes, "index": i, "count": nshards * 2} for i in range(nshards * 2)]
     tasks += [{"engine": "hyp", "examples": examples, "seed": seed * 1000 + i} for i in range(nshards)]
     return tasks
@@ -214,4 +214,4 @@ def run_task(task, acc):
 
 
 def evidence_extra(total, tier):
-    return {"exhaustive_subdomain": "every node of every ordered tree shape with <= %d nodes, for Node, a slotted LightNodeMixin class and SymlinkNode (links whose targets sit elsewhere)" % (7 if tier == "quick" else 9)}
+    return {"exhaustive_subdomain": "every node of every ordered tree shape with <= %d nodes, for Node, a slotted LightNodeMixin class and SymlinkNode (links whose targets sit elsewhere)" % (7 if tier == "quick" else 10)}
